@@ -17,8 +17,8 @@ RULE = ("random small panels (instances <= 3, columns <= 2, series length <= 9 (
         "lower / upper None or around the shortest length; interpolation length 1..12; PAA with every "
         "1 <= m <= n (dividing or not) and m > n; int intervals 1..n/2+1 and explicit interval arrays; "
         "window lengths 1..n+2 (odd and even); fitted random intervals x (mean, std, slope); row "
-        "transformers with order-sensitive test doubles; series with missing values x every "
-        "imputation method; cosine; acf lags/adjusted; MinMax adaptor fitted on another series. "
+        "transformers with order-sensitive test doubles; series and two-column frames with missing "
+        "values x every imputation method (drift oversampled); cosine; acf lags/adjusted; MinMax adaptor fitted on another series. "
         "thorough adds the exhaustive scope n <= 9 x all parameters on fixed data. non-trivial = the "
         "transformer returned an output with at least two values (or rejected exactly at a "
         "documented boundary); distinct = distinct canonical JSON case")
@@ -228,10 +228,18 @@ def _gen_impute(rng, method=None):
     if rng.random() < 0.25 and n >= 5:      # a long interior gap with an exact midpoint
         z[1:4] = [None, None, None]
         z[0], z[4] = z[0] if z[0] is not None else 1.0, z[4] if z[4] is not None else 5.0
-    method = method or rng.choice(METHODS)
-    return {"kind": "impute", "method": method,
-            "value": rng.choice([7.0, -1.5, 0.0]) if method == "constant" else None, "z": z,
-            "t0": rng.choice([0, 0, 5])}
+    method = method or rng.choice(METHODS + ["drift", "drift"])
+    c = {"kind": "impute", "method": method,
+         "value": rng.choice([7.0, -1.5, 0.0]) if method == "constant" else None, "z": z,
+         "t0": rng.choice([0, 0, 5])}
+    if rng.random() < 0.3:
+        # a two-column frame: every column is imputed on its own
+        z2 = [None if rng.random() < 0.4 else v for v in _vals(rng, n)]
+        if all(v is None for v in z2) and rng.random() < 0.8:
+            z2[rng.randrange(n)] = 3.0
+        c["z2"] = z2
+        c["pick"] = rng.choice([0, 1])       # the column compared inside Coq
+    return c
 
 
 def _gen_cos(rng):
@@ -485,14 +493,22 @@ def run_impl(case):
             import pandas as pd
             from sktime.transformations.series.impute import Imputer
             from harness.core import float_ratio
-            z = pd.Series([np.nan if v is None else v for v in case["z"]], dtype=float,
-                          index=pd.RangeIndex(case["t0"], case["t0"] + len(case["z"])))
+            idx = pd.RangeIndex(case["t0"], case["t0"] + len(case["z"]))
+            z = pd.Series([np.nan if v is None else v for v in case["z"]], dtype=float, index=idx)
+            if case.get("z2") is not None:
+                z = pd.DataFrame({"a": z, "b": pd.Series(
+                    [np.nan if v is None else v for v in case["z2"]], dtype=float, index=idx)})
             z0 = z.copy()
             t = Imputer(method=case["method"], value=case["value"])
             zt = t.fit(z).transform(z)
-            return {"vals": [float_ratio(v) for v in zt.values],
-                    "index": [int(i) for i in zt.index],
-                    "input_unchanged": bool(z.equals(z0))}
+            out = {"index": [int(i) for i in zt.index], "input_unchanged": bool(z.equals(z0))}
+            if case.get("z2") is not None:
+                out["vals"] = [float_ratio(v) for v in zt["a"].values]
+                out["vals2"] = [float_ratio(v) for v in zt["b"].values]
+                out["columns"] = [str(c) for c in zt.columns]
+            else:
+                out["vals"] = [float_ratio(v) for v in zt.values]
+            return out
         if k == "cos":
             from sktime.transformations.series.cos import CosineTransformer
             Z = _mk_series(case["cols"])
@@ -866,31 +882,39 @@ def impute_expected(method, value, z):
 
 
 def _oracle_impute(case, out):
-    z = [None if v is None else Fr(v) for v in case["z"]]
     m = case["method"]
+    cols = [("", case["z"], "vals")]
+    if case.get("z2") is not None:
+        cols = [("column a: ", case["z"], "vals"), ("column b: ", case["z2"], "vals2")]
     if "err" in out:
-        if m == "drift" and all(v is None for v in z):
+        if m == "drift" and any(all(v is None for v in zc) for _, zc, _ in cols):
             return None             # nothing to fit a trend on
         return "impute-rejected-valid-input: %s" % out["err"]
-    got = [None if v is None else _fr(v) for v in out["vals"]]
-    if len(got) != len(z):
-        return "impute-length: %d values for %d" % (len(got), len(z))
-    if out["index"] != list(range(case["t0"], case["t0"] + len(z))):
+    if case.get("z2") is not None and out.get("columns") != ["a", "b"]:
+        return "impute-columns-changed: %s" % out.get("columns")
+    n = len(case["z"])
+    if out["index"] != list(range(case["t0"], case["t0"] + n)):
         return "impute-index-changed: %s" % out["index"]
-    for t, (x, g) in enumerate(zip(z, got)):
-        if x is not None and g != x:
-            return "impute-observed-value-changed: position %d %s -> %s" % (t, x, g)
-    exp = impute_expected(m, case["value"], z)
 
     def same(a, b):
         return all((x is None and y is None) or (x is not None and y is not None and _close(x, y))
                    for x, y in zip(a, b))
-    if same(got, exp):
-        return None
-    t = next(i for i, (x, y) in enumerate(zip(got, exp))
-             if not same([x], [y]))
-    return "impute-%s-value: position %d is %s expected %s" % (
-        m, t, None if got[t] is None else float(got[t]), None if exp[t] is None else float(exp[t]))
+    for tag, zc, key in cols:
+        z = [None if v is None else Fr(v) for v in zc]
+        got = [None if v is None else _fr(v) for v in out[key]]
+        if len(got) != len(z):
+            return "impute-length: %s%d values for %d" % (tag, len(got), len(z))
+        for t, (x, g) in enumerate(zip(z, got)):
+            if x is not None and g != x:
+                return "impute-observed-value-changed: %sposition %d %s -> %s" % (tag, t, x, g)
+        exp = impute_expected(m, case["value"], z)
+        if same(got, exp):
+            continue
+        t = next(i for i, (x, y) in enumerate(zip(got, exp)) if not same([x], [y]))
+        return "impute-%s-value: %sposition %d is %s expected %s" % (
+            m, tag, t, None if got[t] is None else float(got[t]),
+            None if exp[t] is None else float(exp[t]))
+    return None
 
 
 def nontrivial(case, out):
@@ -904,6 +928,23 @@ def nontrivial(case, out):
 
 def shrink(case):
     c = dict(case)
+    if c.get("z2") is not None:
+        d = dict(c)
+        d.pop("z2")
+        d.pop("pick", None)
+        yield d
+        d = dict(c)
+        d["z"] = c["z2"]
+        d.pop("z2")
+        d.pop("pick", None)
+        yield d
+    if c.get("kind") == "impute" and len(c["z"]) > 2:
+        for i in (0, len(c["z"]) - 1):
+            d = dict(c)
+            d["z"] = c["z"][:i] + c["z"][i + 1:]
+            if d.get("z2") is not None:
+                d["z2"] = c["z2"][:i] + c["z2"][i + 1:]
+            yield d
     if c.get("fit") is not None:
         d = dict(c)
         d["fit"] = None
@@ -1036,8 +1077,12 @@ def coq_case(case, out):
              "drift": "IDrift"}.get(case["method"])
         if case["method"] == "constant":
             m = "(IConstant %s)" % _cq(case["value"])
-        vals = "None" if "err" in out else "(Some %s)" % _coser(out["vals"])
-        return "CImpute %s %s %s" % (m, _coser(case["z"]), vals)
+        second = case.get("z2") is not None and case.get("pick") == 1
+        zin = case["z2"] if second else case["z"]
+        if "err" in out and case.get("z2") is not None and not all(v is None for v in zin):
+            return None      # the frame was rejected because of the OTHER column
+        vals = "None" if "err" in out else "(Some %s)" % _coser(out["vals2" if second else "vals"])
+        return "CImpute %s %s %s" % (m, _coser(zin), vals)
     if k == "cos":
         return "CCos %s %s" % (clist([_cser(c) for c in case["cols"]]), o)
     if k == "acf":
@@ -1063,6 +1108,9 @@ def distribution(cases, results):
     for c, r in zip(cases, results):
         o = r.get("out") or {}
         d["%s:%s" % (c["kind"], "rejected" if "err" in o else "ok")] += 1
+        if c["kind"] == "impute":
+            d["impute:%s" % ("frame" if c.get("z2") is not None else "series")] += 1
+            d["impute-method:%s" % c["method"]] += 1
         d["cells:%s" % c.get("cells", "-")] += 1
         if c["kind"] == "paa" and "err" not in o:
             n = len(c["X"][0][0])
